@@ -632,58 +632,74 @@ fn expand_brace_range(tokens: &mut types::Tokens) {
             continue;
         }
 
-        // safe to unwrap here, since the `is_match` above already validated
-        let caps = re.captures(token).unwrap();
-
-        let start = match caps[1].to_string().parse::<i32>() {
-            Ok(x) => x,
-            Err(e) => {
-                println_stderr!("cicada: {}", e);
-                return;
-            }
-        };
-
-        let end = match caps[2].to_string().parse::<i32>() {
-            Ok(x) => x,
-            Err(e) => {
-                println_stderr!("cicada: {}", e);
-                return;
-            }
-        };
-
-        // incr is always positive
-        let mut incr = if caps.get(4).is_none() {
-            1
-        } else {
-            match caps[4].to_string().parse::<i32>() {
+        // the text around (and between) the ranges is kept: `a{1..2}b`
+        // gives `a1b a2b`, several ranges in one word give their product.
+        let literals: Vec<&str> = re.split(token).collect();
+        let mut result: Vec<String> = vec![String::new()];
+        for (caps, literal) in re.captures_iter(token).zip(literals.iter()) {
+            let start = match caps[1].to_string().parse::<i32>() {
                 Ok(x) => x,
                 Err(e) => {
                     println_stderr!("cicada: {}", e);
                     return;
                 }
-            }
-        };
-        if incr <= 1 {
-            incr = 1;
-        }
+            };
 
-        let mut result: Vec<String> = Vec::new();
-        let mut n = start;
-        if start > end {
-            while n >= end {
-                result.push(format!("{}", n));
-                n = match n.checked_sub(incr) {
-                    Some(x) => x,
-                    None => break,
-                };
+            let end = match caps[2].to_string().parse::<i32>() {
+                Ok(x) => x,
+                Err(e) => {
+                    println_stderr!("cicada: {}", e);
+                    return;
+                }
+            };
+
+            // incr is always positive
+            let mut incr = if caps.get(4).is_none() {
+                1
+            } else {
+                match caps[4].to_string().parse::<i32>() {
+                    Ok(x) => x,
+                    Err(e) => {
+                        println_stderr!("cicada: {}", e);
+                        return;
+                    }
+                }
+            };
+            if incr <= 1 {
+                incr = 1;
             }
-        } else {
-            while n <= end {
-                result.push(format!("{}", n));
-                n = match n.checked_add(incr) {
-                    Some(x) => x,
-                    None => break,
-                };
+
+            let mut seq: Vec<String> = Vec::new();
+            let mut n = start;
+            if start > end {
+                while n >= end {
+                    seq.push(format!("{}", n));
+                    n = match n.checked_sub(incr) {
+                        Some(x) => x,
+                        None => break,
+                    };
+                }
+            } else {
+                while n <= end {
+                    seq.push(format!("{}", n));
+                    n = match n.checked_add(incr) {
+                        Some(x) => x,
+                        None => break,
+                    };
+                }
+            }
+
+            let mut result_new: Vec<String> = Vec::new();
+            for head in &result {
+                for item in &seq {
+                    result_new.push(format!("{}{}{}", head, literal, item));
+                }
+            }
+            result = result_new;
+        }
+        if let Some(tail) = literals.last() {
+            for item in result.iter_mut() {
+                item.push_str(tail);
             }
         }
 
